@@ -59,6 +59,16 @@ theorem satE_buildWith (w : World) {t : RewriteTable} (h : RewritesOk t = true) 
     cases satS w f σ with
     | error e => rfl
     | ok a => exact satE_buildListWith w h (· || ·) r σ a
+  | .amp l r, σ => by
+    have hp := RewritesOk.unpack h
+    simp only [buildWith, satS]
+    rw [hp.ampOp, ← satE_buildWith w h l σ, ← satE_buildWith w h r σ]
+    simp only [mkBin, satE]
+  | .bar l r, σ => by
+    have hp := RewritesOk.unpack h
+    simp only [buildWith, satS]
+    rw [hp.barOp, ← satE_buildWith w h l σ, ← satE_buildWith w h r σ]
+    exact satE_mkBin_or w hp.orRule (by simp) _ _ σ
   | .not e, σ => by
     simp only [buildWith, satS, satE_notWith w h, satE_buildWith w h e σ]
   | .exists_ v e, σ => by
@@ -92,6 +102,8 @@ def Surface.toS : Surface → SExpr
   | .hasType x c => .hasType x c
   | .andN f r => chainS .and f.toS r.toS
   | .orN f r => chainS .or f.toS r.toS
+  | .amp l r => .and l.toS r.toS
+  | .bar l r => .or l.toS r.toS
   | .not e => .not e.toS
   | .exists_ v e => .exists_ v e.toS
   | .forAll v e => .forAll v e.toS
@@ -129,6 +141,12 @@ theorem buildWith_rewrites_eq_build : ∀ (e : Surface), buildWith rewrites e = 
   | .orN f r => by
     simp only [buildWith, Surface.toS, build_chain_or, ← buildWith_rewrites_eq_build f, ← buildListWith_rewrites r]
     show List.foldl (mkBin rewrites.orRule .optOr) _ _ = _
+    rw [mkBin_rewrites_optOr]
+  | .amp l r => by
+    simp only [buildWith, Surface.toS, build, ← buildWith_rewrites_eq_build l, ← buildWith_rewrites_eq_build r]; rfl
+  | .bar l r => by
+    simp only [buildWith, Surface.toS, build, ← buildWith_rewrites_eq_build l, ← buildWith_rewrites_eq_build r]
+    show mkBin rewrites.orRule .optOr _ _ = _
     rw [mkBin_rewrites_optOr]
   | .not e => by
     simp only [buildWith, Surface.toS, build, ← buildWith_rewrites_eq_build e]
@@ -170,6 +188,8 @@ theorem satS_toS (w : World) : ∀ (e : Surface) (σ : Asg), satS w e σ = sat w
   | .orN f r, σ => by
     simp only [satS, Surface.toS, satS_toS w f σ]
     exact satListL_toS_or w r σ f.toS
+  | .amp l r, σ => by simp only [satS, Surface.toS, sat, satS_toS w l σ, satS_toS w r σ]
+  | .bar l r, σ => by simp only [satS, Surface.toS, sat, satS_toS w l σ, satS_toS w r σ]
   | .not e, σ => by simp only [satS, Surface.toS, sat, satS_toS w e σ]
   | .exists_ v e, σ => by
     simp only [satS, Surface.toS, sat]; congr 1; funext x; exact satS_toS w e _
